@@ -61,6 +61,24 @@ def generate(repo, out):
         if "buffer[maxtagsize]='\\0';" in t and "gcount" not in t: tag_at_gcount = False
         elif re.search(r"constintn=static_cast<int>\(is\.gcount\(\)\);", t) and "buffer[n]='\\0';" in t and "for(inti=n-1;i>=0;--i)is.putback(buffer[i]);" in t: tag_at_gcount = True
         else: pr.append("ReadTag: termination of the tag buffer not recognised")
+    # what ReadTag returns and what the text format requires of it (C07's fix): both or neither
+    whole_tag = False
+    if tag is not None:
+        t = norm(tag)
+        ret_all = "ntag=n;" in t and t.rstrip("}").endswith("returnstd::string(buffer,ntag);")
+        ret_cstr = t.endswith("returnstd::string(buffer);")
+        if not (ret_all or ret_cstr): pr.append("ReadTag: return statement not recognised")
+        ab = body_after(rd("OpenMEEGMaths/include/AsciiIO.H"), r"bool\s+identify\s*\(\s*const\s+std::string&\s*buffer\s*\)\s*const\s*\{")
+        if ab is None: pr.append("AsciiIO.H: identify not found")
+        else:
+            a = norm(ab); NUM = "doubletmp;std::stringstreamss(buffer);return(ss>>tmp)?true:false;"
+            PRINT = "for(constunsignedcharc:buffer)if(!std::isprint(c)&&!std::isspace(c))returnfalse;"
+            if a == PRINT + NUM: text_check = True
+            elif a == NUM: text_check = False
+            else: pr.append("AsciiIO::identify: body not recognised"); text_check = None
+            if text_check is not None:
+                if text_check != ret_all: pr.append("ReadTag returns %s but AsciiIO::identify %s every byte" % ("the whole tag" if ret_all else "the tag up to the first NUL", "checks" if text_check else "does not check"))
+                whole_tag = ret_all and text_check
     mh = rd("OpenMEEGMaths/include/MathsIO.H")
     g = body_after(mh, r"static\s+IO\s+GetCurrentFormat\s*\(\s*\)\s*\{")
     get_resets = g is not None and norm(g) == "IOtmp=DefaultIO;if(!permanent)DefaultIO=0;returntmp;"
@@ -165,7 +183,7 @@ def generate(repo, out):
         cat_lines.append("  (%s, %s)" % ("[" + "; ".join("%d%%nat" % r for r in reads) + "]", "[" + "; ".join("%d%%nat" % w for w in writes) + "]"))
     txt = """(* GENERATED by translators/t_c17_state.py from the current sources - do not edit. *)
 From OM Require Import Base.Lists Maths.IOState Geom.MeshState.
-Definition code_io_cfg : cfg := {| consume_before_open := %s; tag_at_gcount := %s |}.
+Definition code_io_cfg : cfg := {| consume_before_open := %s; tag_at_gcount := %s; whole_tag := %s |}.
 Definition code_get_current_resets : bool := %s.
 Definition code_load_save_retry_shape : bool := %s.
 Definition code_sparse_load_clears : bool := %s.
@@ -176,6 +194,6 @@ Definition code_surfsource_marks_source : bool := %s.
 (* (operands read, operands declared non-const) of every computation of the compute machine, from the signatures *)
 Definition code_compute_catalogue : list (list nat * list nat) := [
 %s ].
-""" % (b(consume_before_open), b(tag_at_gcount), b(get_resets), b(shape_ok), b(sparse_clears), b(geom_fixed), b(sens_fixed), b(mesh_flags), b(mesh_geom), b(marks), ";\n".join(cat_lines))
+""" % (b(consume_before_open), b(tag_at_gcount), b(whole_tag), b(get_resets), b(shape_ok), b(sparse_clears), b(geom_fixed), b(sens_fixed), b(mesh_flags), b(mesh_geom), b(marks), ";\n".join(cat_lines))
     gencoq.put(os.path.join(out, "GenC17.v"), txt)
     return pr
